@@ -384,6 +384,8 @@ FRAGMENTS = [
     "M0,0 A 1 1 0 0 0 1e-200 0", "M5,5 a 1 1 0 0 0 1e-200 0", "M0,0 A 1e-200 1 0 0 0 5 5", "M0,0 a 1 1 0 0 0 5e-324 5e-324",
     "M0,0 A 1e-170 1e-170 0 0 1 1e-170 1e-170", "M1,1 A 1e200 1e200 0 0 1 2,2", "M0,0 Q 1e-200 1e-200 1e-200 0", "M0,0 l 1e-200 0 l 0 1e-200 z",
     "M0,0 C 1e300 0 0 1e300 1,1", "M1e-300,1e-300 L 2e-300,1e-300 A 1e-300 1e-300 0 1 1 1e-300 2e-300", "M0,0 T 1e-200,0 T 0,0",
+    # radii and chords whose squares are subnormal or overflow while the numbers themselves are ordinary doubles
+    "M0 0 A 1 1e-160 0 0 1 1e-7 0", "M0,0 A 1e-160 1 0 0 0 1 0", "M0,0 A 1e-155 1e-158 30 1 0 1e-3 1e-3", "M5,5 a 3e-162 1 0 0 1 2,2",
     # inline closes in either case after every command that takes them
     "M0,0 L1,1 A 5,5 0 0 1 Z", "M0,0 L3,0 C1,1 2,2 Z", "M0,0 L3,0 Q1,1 Z", "M0,0 L3,0 L Z", "M0,0 Q1,1 3,0 T Z", "M0,0 L3,0 S1,1 Z",
     "m1,1 l3,0 a 5,5 0 0 1 Z", "M0,0 L3,0 C1,1 Z", "M0,0 L3,0 C Z", "M0,0 L3,0 S Z", "M0,0 L3,0 Q Z",
